@@ -418,7 +418,15 @@ func (e *Evaluator) evalCaseMatch(value *Cell, exprs []Expr) (bool, map[string]*
 		case *ExprIdentifier:
 			bindings := make(map[string]*Cell)
 			ident := e.lexer.GetString(&ex.token)
-			bindings[ident] = value
+			// bind the value, not the subject's cell: assigning to the name
+			// must not change the subject (scalars are copied, arrays and
+			// objects shared, as for parameters and loop variables), and a
+			// missing member is a plain null, not a place in its object
+			bound := NewCell(value.Value)
+			if bound.Value.Tag == ValueNil {
+				bound.Value.ParentObj = nil
+			}
+			bindings[ident] = bound
 			return true, bindings, nil
 		default:
 			return false, nil, e.error(expr.Token(), fmt.Sprintf("%s not supported in match expressions", expr))
